@@ -161,6 +161,9 @@ def run(ctx):
                     if nxt[p - 1] == "String":
                         ok = isinstance(how, str) and facts.items.get(how, {}).get("output") == "std::string::String" and facts.items.get(how, {}).get("inputs") == ["&serde_json::Value"]
                         ctx.check(bool(ok), "K2.container-to-string", "%s,%s: container replaced by its string form (%s)" % (a, b, cfg), "container operand converted by %s" % how, where=cb.where(cbi), fn=cb.key)
+                        src = strip_refs(inner[2][0]) if inner[0] == "call" and inner[2] else None
+                        ctx.check(src == ("arg", p), "K2.converts-own-operand", "%s,%s: operand %d is replaced by the string form of operand %d itself (%s)" % (a, b, p, p, cfg),
+                                  "in the recursion for %s,%s operand %d is replaced by the string form of %s" % (a, b, p, show_expr(src) if src else "?"), where=cb.where(cbi), fn=cb.key, nontrivial=True)
         for a in pairs.KINDS:
             for b in pairs.KINDS:
                 ka, kb = m[(a, b)].kind, m[(b, a)].kind
